@@ -26,6 +26,13 @@ pub broadcast axiom fn ax_div(a: f64, b: f64)
         (rv(b) != 0real || nan(b)) ==> nan(a.div_spec(b)) == (nan(a) || nan(b));
 pub broadcast axiom fn ax_div_o() ensures #[trigger] <f64 as DivSpec<f64>>::obeys_div_spec();
 
+// IEEE facts about the division cases A-REAL leaves open: a NaN numerator always gives NaN, and 0 / 0 is NaN
+// (x / 0 for a non-zero x is +-inf, which the model does not represent: still unspecified).  Not part of the a_real group.
+pub broadcast axiom fn ax_div_nan(a: f64, b: f64)
+    ensures
+        nan(a) ==> nan(#[trigger] a.div_spec(b)),
+        (!nan(a) && !nan(b) && rv(a) == 0real && rv(b) == 0real) ==> nan(a.div_spec(b));
+
 pub broadcast group a_real {
     ax_add_req, ax_add, ax_add_o, ax_sub_req, ax_sub, ax_sub_o, ax_mul_req, ax_mul, ax_mul_o,
     ax_div_req, ax_div, ax_div_o,
@@ -61,6 +68,16 @@ pub open spec fn rpow(x: real, k: int) -> real
 }
 pub assume_specification[ f64::powi ](a: f64, k: i32) -> (r: f64)
     ensures k >= 0 ==> rv(r) == rpow(rv(a), k as int), k >= 0 ==> nan(r) == nan(a) || (k == 0 && !nan(r));
+
+// IEEE maxNum / minNum (std f64::max / f64::min): a NaN operand is ignored, NaN only if both are NaN
+pub assume_specification[ f64::max ](a: f64, b: f64) -> (r: f64)
+    ensures
+        (nan(a) && nan(b)) ==> nan(r), (nan(a) && !nan(b)) ==> r == b, (!nan(a) && nan(b)) ==> r == a,
+        (!nan(a) && !nan(b)) ==> !nan(r) && rv(r) == (if rv(a) >= rv(b) { rv(a) } else { rv(b) });
+pub assume_specification[ f64::min ](a: f64, b: f64) -> (r: f64)
+    ensures
+        (nan(a) && nan(b)) ==> nan(r), (nan(a) && !nan(b)) ==> r == b, (!nan(a) && nan(b)) ==> r == a,
+        (!nan(a) && !nan(b)) ==> !nan(r) && rv(r) == (if rv(a) <= rv(b) { rv(a) } else { rv(b) });
 
 pub assume_specification[ f64::is_nan ](a: f64) -> (r: bool)
     ensures r == nan(a);
